@@ -1308,6 +1308,12 @@ namespace cds { namespace intrusive {
                 pos.pSucc[nLevel] = pCur.ptr();
             }
 
+            if ( pCur.ptr() == nullptr && pPred != m_Head.head()) {
+                // The last item has been removed while we were descending from pPred:
+                // pPred is not the head, so the list is not empty - try again
+                goto retry;
+            }
+
             return ( pos.pCur = pCur.ptr()) != nullptr;
         }
 
